@@ -6,8 +6,8 @@ Core Lean only.
 
 Fragment: the parameterless core types (by name), `Integer[…]`, `String[…]` (size-constrained, and the exact-value form
 inside `Optional`/`NotUndef`), `Boolean[b]`, `Enum[…]`, `Regexp[/…/]`, `Pattern[…]`, the six unary wrappers
-`Optional NotUndef Type Sensitive Iterable Iterator`, `Variant[…]`, `Array[…]`, `Hash[…]`, `Collection[…]`.
-Not in the fragment: `Float[…]` (float rendering), `Tuple`, `Struct`, `Callable`, `Runtime`, `Init`, `Like`, `Object`,
+`Optional NotUndef Type Sensitive Iterable Iterator`, `Variant[…]`, `Array[…]`, `Hash[…]`, `Collection[…]`, `Tuple[…]`.
+Not in the fragment: `Float[…]` (float rendering), `Struct`, `Callable`, `Runtime`, `Init`, `Like`, `Object`,
 `TypeSet`, aliases, `TypeReference`, the leaf types with parameters (`Timespan Timestamp SemVer SemVerRange URI`).
 
 Code ↔ model map
@@ -51,7 +51,7 @@ def WrapKind.name : WrapKind → Str
 
 /-- the parameterized core types of the fragment -/
 inductive TKind where
-  | integer | string | boolean | enum | regexp | pattern | variant | array | hash | collection
+  | integer | string | boolean | enum | regexp | pattern | variant | array | hash | collection | tuple
   | wrap (k : WrapKind)
   deriving DecidableEq, Repr
 
@@ -66,10 +66,11 @@ def TKind.name : TKind → Str
   | .array => "Array".toList
   | .hash => "Hash".toList
   | .collection => "Collection".toList
+  | .tuple => "Tuple".toList
   | .wrap k => k.name
 
 def allKinds : List TKind :=
-  [.integer, .string, .boolean, .enum, .regexp, .pattern, .variant, .array, .hash, .collection,
+  [.integer, .string, .boolean, .enum, .regexp, .pattern, .variant, .array, .hash, .collection, .tuple,
    .wrap .optional, .wrap .notUndef, .wrap .type_, .wrap .sensitive, .wrap .iterable, .wrap .iterator]
 
 /-- `coreTypes[name]` restricted to the parameterized types of the fragment -/
@@ -89,6 +90,7 @@ inductive Ty where
   | array (t : Ty) (lo hi : Int)
   | hash (k v : Ty) (lo hi : Int)
   | collection (lo hi : Int)
+  | tuple (ts : List Ty) (sz : Option (Int × Int))   -- `size` may be nil
   deriving Repr, Inhabited
 
 mutual
@@ -106,6 +108,7 @@ def Ty.beq : Ty → Ty → Bool
   | .array a b c, .array d e f => Ty.beq a d && b == e && c == f
   | .hash a b c d, .hash e f g h => Ty.beq a e && Ty.beq b f && c == g && d == h
   | .collection a b, .collection c d => a == c && b == d
+  | .tuple a b, .tuple c d => Ty.beqList a c && b == d
   | _, _ => false
 def Ty.beqList : List Ty → List Ty → Bool
   | [], [] => true
@@ -120,7 +123,7 @@ def tyString : Ty := .named "String".toList
 /-- the parameterless types of the fragment: a bare name that resolves to a type which prints as that name -/
 def plainNames : List Str :=
   ["Any", "Unit", "Undef", "Default", "Scalar", "ScalarData", "Numeric", "Data", "RichData", "Binary", "Float", "String",
-   "Callable", "Tuple", "Struct", "Timespan", "Timestamp", "SemVer", "SemVerRange", "URI", "Runtime", "Object", "Init",
+   "Callable", "Struct", "Timespan", "Timestamp", "SemVer", "SemVerRange", "URI", "Runtime", "Object", "Init",
    "TypeSet"].map String.toList
 
 /-! ### printing -/
@@ -174,6 +177,11 @@ def tyExpr : Ty → Val
     else if k.isUnit ∧ v.isUnit ∧ lo = 0 ∧ hi = 0 then tname .hash [.int 0, .int 0]
     else tname .hash (tyExpr k :: tyExpr v :: (if lo = 0 ∧ hi = i64max then [] else sizeParams lo hi))
   | .collection lo hi => tname .collection (if lo = 0 ∧ hi = i64max then [] else sizeParams lo hi)
+  | .tuple ts sz =>
+    tname .tuple (tyExprs ts ++
+      (match sz with
+       | none => []
+       | some r => if ts.isEmpty ∧ r.1 = 0 ∧ r.2 = i64max then [] else sizeParams r.1 r.2))
 def tyExprs : List Ty → List Val
   | [] => []
   | t :: ts => tyExpr t :: tyExprs ts
@@ -288,6 +296,50 @@ def variantArgs (fuel : Nat) (args : List Arg) : Option Ty :=
     | [_] => none
     | _ => (args.mapM argTy).map .variant
 
+/-- `IntegerType.Parameters()` as arguments (the second argument of `Tuple[[T…], Integer[…]]`) -/
+def intParamsA (lo hi : Int) : List Arg :=
+  if lo = i64min then (if hi = i64max then [] else [.dflt, .int hi])
+  else if hi = i64max then [.int lo] else [.int lo, .int hi]
+
+/-- the end of `tupleFromArgs(false, …)`: the member types and the size -/
+def tupleMk (tys : List Arg) (rng : Option (Int × Int)) : Option Ty :=
+  match tys with
+  | [] =>
+    match rng with
+    | none => some (.tuple [] (some (0, 0)))       -- no types, no size: the empty tuple
+    | some r => some (.tuple [] (some r))
+  | _ => (tys.mapM argTy).map fun ts => .tuple ts rng
+
+/-- the head of `tupleFromArgs`: `Tuple[[T…]]` and `Tuple[[T…], Integer[…]]` are flattened -/
+def tupleFlat (args : List Arg) : Option (List Arg) :=
+  match args with
+  | [.arr as] => some as
+  | [.arr as, .ty (.int lo hi)] => some (as ++ intParamsA lo hi)
+  | [.arr _, _] => none
+  | l => some l
+
+/-- the size analysis of `tupleFromArgs(false, …)` on the flattened arguments -/
+def tupleBody (l : List Arg) : Option Ty :=
+  match l.reverse with
+  | [] => tupleMk [] none
+  | last :: restRev =>
+    -- a trailing `default` or non-negative integer is the maximum size
+    let mx : Option Int :=
+      match last with
+      | .dflt => some i64max
+      | .int n => if n ≥ 0 then some n else none
+      | _ => none
+    match mx with
+    | none => tupleMk l none
+    | some m =>
+      match restRev with
+      | [] => tupleMk [] (some (0, i64max))                 -- `Tuple[n]`: the minimum stays 0, the maximum is unbounded
+      | .int mn :: tysRev => (newInt mn m).bind fun r => tupleMk tysRev.reverse (some r)
+      | _ => (newInt m restRev.length).bind fun r => tupleMk restRev.reverse (some r)
+
+/-- `tupleFromArgs(false, args)` -/
+def tupleCreate (args : List Arg) : Option Ty := (tupleFlat args).bind tupleBody
+
 def argDepth : Arg → Nat
   | .arr as => 1 + argsDepth as
   | _ => 0
@@ -375,6 +427,7 @@ def createK (rxOK : Str → Bool) (kd : TKind) (args : List Arg) : Option Ty :=
     | [a] => (sizes1 a).map fun r => .collection r.1 r.2
     | [a, b] => (sizes2 a b).map fun r => .collection r.1 r.2
     | _ => none
+  | .tuple => tupleCreate args
   | .wrap k => wrapOf k args
 
 /-- `ResolveWithParams(c, name, args)` -/
@@ -395,6 +448,7 @@ def defaultOf : TKind → Ty
   | .array => .array tyAny 0 i64max
   | .hash => .hash tyAny tyAny 0 i64max
   | .collection => .collection 0 i64max
+  | .tuple => .tuple [] (some (0, i64max))
   | .wrap k => .wrap k tyAny
 
 /-- `Resolve(c, name)` for a bare name: the default type of that name -/
